@@ -509,7 +509,110 @@ def rule5_mtbb(ctx):
         resets = [x for x in w.stores_to(TL + 'tail')]  # task_list::reset/init inlined: tail = head
         ctx.ob('C17.5', 'wait resets the list after joining', bool(resets) and all(not w.can_reach(r, j) for r in resets) and
                w.always_passes(w.entry_inst(), resets), 'the group is reusable after wait', loc=w.loc)
-    ctx.floor('C17.5', 24)
+    rule5_range_and_memory(ctx)
+    ctx.floor('C17.5', 24 + 12)
+
+
+def rule5_range_and_memory(ctx):
+    """range-based parallel_for (instantiated with a declared-only Range) and the task memory allocator of task_group"""
+    pats = {
+        'rpf': (['12parallel_forI3Rng7BodyRng'], ['callable']),
+        'alloc': (['task_memory_allocator5alloc'], []),
+        'new_chunk': (['task_memory_allocator9new_chunk'], []),
+    }
+    v, nm = mtbb_module(ctx, pats)
+    f = ctx.need_fn(v, nm['rpf'])
+    callsof = lambda pat: [c for c in f.order if c.op in ('call', 'invoke') and c.callee and pat in c.callee]
+    emp, div, body = callsof('Rng5emptyEv'), callsof('Rng12is_divisibleEv'), callsof('BodyRngclE')
+    ctors = [c for c in callsof('RngC') if len(c.args) == 4]
+    rec = [c for c in f.order if c.op in ('call', 'invoke') and c.callee == nm['rpf']]
+    ctx.ob('C17.5', 'range parallel_for: shape', len(emp) == 1 and len(div) == 1 and len(body) == 1 and len(ctors) == 2 and len(rec) == 1,
+           'empty test, divisibility test, one body call, two sub-ranges, one direct recursion', loc=f.loc,
+           detail='%d/%d/%d/%d/%d' % (len(emp), len(div), len(body), len(ctors), len(rec)))
+    if not (len(emp) == 1 and len(div) == 1 and len(body) == 1 and len(ctors) == 2 and len(rec) == 1):
+        return
+    ctx.ob('C17.5', 'range parallel_for: body only for a non-empty, indivisible range',
+           any(f.on_edge(c_, not p_, body[0]) for c_, p_ in lib.cond_chain(f, emp[0].id)) and
+           any(f.on_edge(c_, not p_, body[0]) for c_, p_ in lib.cond_chain(f, div[0].id)), 'body(range) on !empty && !is_divisible', loc=body[0].loc)
+    for c in ctors + rec:
+        ctx.ob('C17.5', 'range parallel_for: splits only a divisible range', any(f.on_edge(c_, p_, c) for c_, p_ in lib.cond_chain(f, div[0].id)),
+               'sub-ranges are built on the is_divisible() edge', loc=c.loc)
+    # evaluate the four bounds with begin() = b, end() = e for every call of the accessors (they are pure observers of `range`)
+    begins = [c.id for c in callsof('Rng5beginEv') if same_value(f, c.args[0], 'a0')]
+    ends = [c.id for c in callsof('Rng3endEv') if same_value(f, c.args[0], 'a0')]
+    left = [c for c in ctors if not same_value(f, c.args[0], rec[0].args[0])]
+    right = [c for c in ctors if same_value(f, c.args[0], rec[0].args[0])]
+    ctx.ob('C17.5', 'range parallel_for: the directly executed half is one of the two sub-ranges', len(left) == 1 and len(right) == 1,
+           'parallel_for(right, body)', loc=rec[0].loc)
+    if len(left) == 1 and len(right) == 1:
+        bad, n_ev = [], 0
+        for b in range(-9, 10):
+            for e in range(b + 2, b + 12):
+                env = dict((k, b) for k in begins)
+                env.update((k, e) for k in ends)
+                vals = [lib.eval_expr(f, x, env) for x in (left[0].args[1], left[0].args[2], right[0].args[1], right[0].args[2])]
+                if any(x is None for x in vals):
+                    continue
+                n_ev += 1
+                lb, le, rb, re_ = vals
+                halves = sorted([(lb, le), (rb, re_)])
+                if not (halves[0][0] == b and halves[1][1] == e and halves[0][1] == halves[1][0] and b < halves[0][1] < e):
+                    bad.append((b, e, vals))
+        ctx.ob('C17.5', 'range parallel_for: the two halves tile [begin, end) and both are shorter than it', n_ev == 19 * 10 and not bad,
+               'bounds constant-folded on a grid of (begin, end) with end - begin >= 2, incl. negative indices: [begin, mid) and [mid, end) '
+               'with begin < mid < end (a midpoint outside the range makes one half larger than the whole: unbounded recursion)',
+               loc=left[0].loc, detail='%d points; first mismatches (begin, end, [l.b, l.e, r.b, r.e]): %s' % (n_ev, bad[:3]))
+        gs = [c.id for c in callsof('Rng9grainsizeEv')]
+        ctx.ob('C17.5', 'range parallel_for: grainsize handed down', all(f.strip(c.args[3]) in gs for c in ctors), 'same grain in both halves', loc=f.loc)
+    spawn = [c for c in f.order if c.op in ('call', 'invoke') and c.callee and
+             (('task_group_no_prof' in c.callee and 'run' in c.callee) or c.callee == 'myth_create')]
+    waits = [c for c in f.order if c.op in ('call', 'invoke') and c.callee and
+             (('task_group_no_prof' in c.callee and 'wait' in c.callee) or c.callee == 'myth_join')]
+    ctx.ob('C17.5', 'range parallel_for: spawns one half and joins it', len(spawn) >= 1 and len(waits) >= 1 and
+           all(f.can_reach(s_, w_) for s_ in spawn[:1] for w_ in waits[:1]), 'tg.run_(left) ... tg.wait_()', loc=f.loc)
+    # ---- task memory allocator
+    TMA, TMC = 'task_memory_allocator.', 'task_memory_chunk.'
+    a = ctx.need_fn(v, nm['alloc'])
+    grow = [c for c in a.calls() if c.callee == nm['new_chunk']]
+    bump = [st for st in a.stores_to(TMC + 'p')]
+    ctx.ob('C17.5', 'task memory alloc: shape', len(grow) == 1 and len(bump) == 1, 'one growth site, one bump of the allocation pointer', loc=a.loc)
+    if len(grow) == 1 and len(bump) == 1:
+        st = bump[0]
+        root = a.get(a.strip(a.ap(st.ops[1]).root))
+        fresh = root is not None and root.op == 'load' and a.field(root) == TMA + 'tail' and not a.can_reach(root, grow[0])
+        ctx.ob('C17.5', 'task memory alloc: bumps the chunk that is the tail after growing', fresh,
+               'tail->p = p + s with tail read after new_chunk() (bumping the old chunk leaves the new one at its start: the next task is '
+               'constructed over this one)', loc=st.loc)
+        rets = [r for r in a.order if r.op == 'ret' and r.ops]
+        pv = a.get(a.strip(rets[0].ops[0])) if rets else None
+        okp = pv is not None and pv.op == 'phi' and sorted((a.strip(x) == grow[0].id, is_load_of(a, x, TMC + 'p')) for x, _b in pv.d['incoming']) == [(False, True), (True, False)]
+        if not okp and pv is not None and pv.op == 'load' and a.field(pv) == TMC + 'p':
+            # the pointer re-read from the tail after a possible growth
+            r2 = a.get(a.strip(a.ap(pv.ops[0]).root))
+            okp = r2 is not None and r2.op == 'load' and a.field(r2) == TMA + 'tail' and not a.can_reach(r2, grow[0])
+        ctx.ob('C17.5', 'task memory alloc: returns the old pointer, or the start of the new chunk', okp, 'p = tail->p, or new_chunk(s)', loc=a.loc)
+        d = {k: c for k, c in lib.affine_diff(a, st.ops[0], pv.id).items() if c != 0} if okp else None
+        ctx.ob('C17.5', 'task memory alloc: pointer advanced by the size', d == {'a1': 1}, 'tail->p = p + s', loc=st.loc)
+        fits = [ic for ic in a.order if ic.op == 'icmp' and ic.pred in ('ugt', 'ule', 'uge', 'ult') and
+                any(is_load_of(a, o, TMC + 'end') for o in ic.ops)]
+        okg = any(a.on_edge(c_, p_ == (ic.pred in ('ugt', 'ult') and is_load_of(a, ic.ops[1] if ic.pred == 'ugt' else ic.ops[0], TMC + 'end')), grow[0])
+                  for ic in fits for c_, p_ in lib.cond_chain(a, ic.id))
+        ctx.ob('C17.5', 'task memory alloc: grows exactly when the request does not fit', bool(fits) and okg, 'p + s > tail->end', loc=grow[0].loc)
+    nc = ctx.need_fn(v, nm['new_chunk'])
+    nw = [c for c in nc.calls() if c.callee == '_Znwm']
+    link = [s_ for s_ in nc.stores_to(TMC + 'next') if nw and same_value(nc, s_.ops[0], nw[0].id)]
+    tl = [s_ for s_ in nc.stores_to(TMA + 'tail') if nw and same_value(nc, s_.ops[0], nw[0].id)]
+    ini = [c for c in nc.calls() if c.callee and 'task_memory_chunk4init' in c.callee]
+    ctx.ob('C17.5', 'new_chunk: initialised for the request, linked behind the tail, becomes the tail',
+           len(nw) == 1 and len(link) == 1 and len(tl) == 1 and is_load_of(nc, nc.ap(link[0].ops[1]).root, TMA + 'tail') and
+           nc.dominates_f(link[0], tl[0]) and
+           ((len(ini) == 1 and same_value(nc, ini[0].args[0], nw[0].id) and same_value(nc, ini[0].args[1], 'a1')) or
+            (not ini and all(any(same_value(nc, nc.ap(x.ops[1]).root, nw[0].id) for x in nc.stores_to(TMC + fld)) for fld in ('p', 'end', 'next')))),
+           'ch->init(s); tail->next = ch; tail = ch', loc=nc.loc)
+    rets = [r for r in nc.order if r.op == 'ret' and r.ops]
+    ctx.ob('C17.5', 'new_chunk returns the new chunk\'s allocation pointer', bool(rets) and all(
+        is_load_of(nc, r.ops[0], TMC + 'p') and nw and same_value(nc, nc.ap(nc.get(nc.strip(r.ops[0])).ops[0]).root, nw[0].id) for r in rets),
+           'return ch->p', loc=nc.loc)
 
 
 def run(ctx):
@@ -530,6 +633,12 @@ SCHED = 'src/myth_sched_func.h'
 PF = 'src/mtbb/parallel_for.h'
 TG = 'src/mtbb/task_group.h'
 MUTANTS = [
+    {'name': 'range parallel_for midpoint (begin+end)/2u wraps for negative indices (seed3 C17/m1)', 'expect': 'C17.5',
+     'edits': [(PF, "      Range left(range.begin(),\n                 range.begin() + (range.end() - range.begin()) / 2u,\n                 range.grainsize());\n      const Range right(range.begin() + (range.end() - range.begin()) / 2u,\n                        range.end(),\n                        range.grainsize());",
+                "      Range left(range.begin(), (range.begin() + range.end()) / 2u, range.grainsize());\n      const Range right((range.begin() + range.end()) / 2u, range.end(), range.grainsize());")]},
+    {'name': 'task memory alloc bumps the chunk read before growing (seed3 C17/m3)', 'expect': 'C17.5',
+     'edits': [(TG, "      char * p = tail->p;\n      if (p + s > tail->end)\n\tp = new_chunk(s);\n      assert(tail->p == p);\n      assert(tail->p + s <= tail->end);\n      tail->p = p + s;",
+                "      task_memory_chunk * ch = tail;\n      char * p = ch->p;\n      if (p + s > ch->end)\n\tp = new_chunk(s);\n      assert(tail->p == p);\n      assert(tail->p + s <= tail->end);\n      ch->p = p + s;")]},
     {'name': 'ids/results NULL test after adding the stride offset (seed2 C17/m1)', 'expect': 'C17.3',
      'edits': [(SCHED, "    void * ids     = (meta_arg->ids   ? (char *)meta_arg->ids   + a * id_stride : 0);", "    void * ids     = (char *)meta_arg->ids     + a * id_stride;"),
                (SCHED, "    void * results = (meta_arg->results ? (char *)meta_arg->results + a * result_stride : 0);  ", "    void * results = (char *)meta_arg->results + a * result_stride;")]},
